@@ -16,6 +16,7 @@ CONSTANTS
   WithIndexer = FALSE
   MaxHeaders = 0
   TraceMode = FALSE
+  Foreign = FALSE
 INVARIANTS CexNoCrash
 VIEW View
 CHECK_DEADLOCK FALSE
